@@ -562,3 +562,66 @@ def control_rootonly(repo):
     sch = Schema(r2)
     sites = collect_sites(r2, sch, [r2.mod("compiler/front_end/zz_verif_control.py")])
     return bool(rootonly(r2, sch, sites).findings)
+
+
+# --- R-INCIDENTAL-PURE ------------------------------------------------------------------
+MUTATING_METHODS = {"append", "extend", "insert", "update", "setdefault", "pop", "clear", "remove", "add", "discard", "popitem", "sort"}
+
+
+def incidental_pure(repo, schema=None, sites=None):
+    """Traversal parameters are scoped to a branch of the IR only by a shallow copy of the parameter dict:
+    an incidental action (or an action that returns overrides) must not mutate a parameter *value* in place,
+    or the override leaks to sibling branches and later modules.  It may rebind the name to a copy first."""
+    res = RuleResult("R-INCIDENTAL-PURE")
+    schema = schema or Schema(repo)
+    sites = sites if sites is not None else collect_sites(repo, schema)
+    funcs = {}
+    for s in sites:
+        for t, fs in s.incidental.items():
+            for f in fs:
+                if f is not None:
+                    funcs[f.fq] = (f, f"incidental action for {t} at {s.where}")
+        if s.action is not None and returned_keys(s.action.node)[1]:
+            funcs.setdefault(s.action.fq, (s.action, f"action returning parameter overrides at {s.where}"))
+    for fq, (f, why) in sorted(funcs.items()):
+        params = [a.arg for a in f.node.args.args][1:] + [a.arg for a in f.node.args.kwonlyargs]
+        # parameters handed on unchanged in identity: `return {"k": p}`
+        rets = set()
+        for n in walk_no_nested_funcs(f.node):
+            if isinstance(n, ast.Return) and isinstance(n.value, ast.Dict):
+                for v in n.value.values:
+                    if isinstance(v, ast.Name):
+                        rets.add(v.id)
+        for p in params:
+            res.instances += 1
+            if p in ("errors",):
+                continue  # error lists are shared accumulators by design
+            rebound_at = None
+            for st in f.node.body:
+                for n in walk_no_nested_funcs(st):
+                    if isinstance(n, ast.Assign) and any(isinstance(t, ast.Name) and t.id == p for t in n.targets):
+                        if rebound_at is None:
+                            rebound_at = n.lineno
+            for n in walk_no_nested_funcs(f.node):
+                line = getattr(n, "lineno", 0)
+                mut = None
+                if isinstance(n, (ast.Assign, ast.AugAssign)):
+                    tgts = n.targets if isinstance(n, ast.Assign) else [n.target]
+                    for t in tgts:
+                        if isinstance(t, ast.Subscript) and isinstance(t.value, ast.Name) and t.value.id == p:
+                            mut = f"{p}[...] = ..."
+                elif isinstance(n, ast.Call) and isinstance(n.func, ast.Attribute) and isinstance(n.func.value, ast.Name) \
+                        and n.func.value.id == p and n.func.attr in MUTATING_METHODS:
+                    mut = f"{p}.{n.func.attr}(...)"
+                elif isinstance(n, ast.Delete):
+                    for t in n.targets:
+                        if isinstance(t, ast.Subscript) and isinstance(t.value, ast.Name) and t.value.id == p:
+                            mut = f"del {p}[...]"
+                if mut and (rebound_at is None or line < rebound_at) and p in rets:
+                    res.add(f"{f.file}|{f.qualname}|{p}", f"{f.qualname} ({why}) mutates its traversal parameter `{p}` in place "
+                            f"(`{mut}`) and hands it on: the value is shared by every branch of the traversal, so a setting "
+                            "made inside one scope leaks into sibling scopes and later modules", f.file, line, f.qualname)
+                    break
+        res.analysed.append(f"{f.file}:{f.qualname}")
+    res.samples = [f"{f.fq}: {why}" for f, why in list(funcs.values())[:3]]
+    return res
